@@ -1698,17 +1698,31 @@ where
         }
     }
 
+    /// The value type of the element with the given tag,
+    /// if it exists and does not hold a primitive value.
+    fn non_primitive_value_type(&self, tag: Tag) -> Option<ValueType> {
+        match self.entries.get(&tag)?.value() {
+            Value::Primitive(_) => None,
+            Value::PixelSequence(..) => Some(ValueType::PixelSequence),
+            Value::Sequence(..) => Some(ValueType::DataSetSequence),
+        }
+    }
+
     fn apply_push_str_impl(&mut self, tag: Tag, string: Cow<'static, str>) -> ApplyResult {
+        if let Some(kind) = self.non_primitive_value_type(tag) {
+            // fail before taking the element out, so that the object is left untouched
+            return IncompatibleTypesSnafu { kind }.fail();
+        }
         if let Some(e) = self.entries.remove(&tag) {
             let (header, value) = e.into_parts();
             match value {
                 Value::Primitive(mut v) => {
                     self.invalidate_if_charset_changed(tag);
                     // extend value
-                    v.extend_str([string]).context(ModifySnafu)?;
-                    // reinsert element
+                    let result = v.extend_str([string]).context(ModifySnafu);
+                    // reinsert element (as it was if the value could not be extended)
                     self.put(DataElement::new(tag, header.vr, v));
-                    Ok(())
+                    result
                 }
 
                 Value::PixelSequence(..) => IncompatibleTypesSnafu {
@@ -1733,15 +1747,19 @@ where
     }
 
     fn apply_push_i32_impl(&mut self, tag: Tag, integer: i32) -> ApplyResult {
+        if let Some(kind) = self.non_primitive_value_type(tag) {
+            // fail before taking the element out, so that the object is left untouched
+            return IncompatibleTypesSnafu { kind }.fail();
+        }
         if let Some(e) = self.entries.remove(&tag) {
             let (header, value) = e.into_parts();
             match value {
                 Value::Primitive(mut v) => {
                     // extend value
-                    v.extend_i32([integer]).context(ModifySnafu)?;
-                    // reinsert element
+                    let result = v.extend_i32([integer]).context(ModifySnafu);
+                    // reinsert element (as it was if the value could not be extended)
                     self.put(DataElement::new(tag, header.vr, v));
-                    Ok(())
+                    result
                 }
 
                 Value::PixelSequence(..) => IncompatibleTypesSnafu {
@@ -1766,15 +1784,19 @@ where
     }
 
     fn apply_push_u32_impl(&mut self, tag: Tag, integer: u32) -> ApplyResult {
+        if let Some(kind) = self.non_primitive_value_type(tag) {
+            // fail before taking the element out, so that the object is left untouched
+            return IncompatibleTypesSnafu { kind }.fail();
+        }
         if let Some(e) = self.entries.remove(&tag) {
             let (header, value) = e.into_parts();
             match value {
                 Value::Primitive(mut v) => {
                     // extend value
-                    v.extend_u32([integer]).context(ModifySnafu)?;
-                    // reinsert element
+                    let result = v.extend_u32([integer]).context(ModifySnafu);
+                    // reinsert element (as it was if the value could not be extended)
                     self.put(DataElement::new(tag, header.vr, v));
-                    Ok(())
+                    result
                 }
 
                 Value::PixelSequence(..) => IncompatibleTypesSnafu {
@@ -1799,15 +1821,19 @@ where
     }
 
     fn apply_push_i16_impl(&mut self, tag: Tag, integer: i16) -> ApplyResult {
+        if let Some(kind) = self.non_primitive_value_type(tag) {
+            // fail before taking the element out, so that the object is left untouched
+            return IncompatibleTypesSnafu { kind }.fail();
+        }
         if let Some(e) = self.entries.remove(&tag) {
             let (header, value) = e.into_parts();
             match value {
                 Value::Primitive(mut v) => {
                     // extend value
-                    v.extend_i16([integer]).context(ModifySnafu)?;
-                    // reinsert element
+                    let result = v.extend_i16([integer]).context(ModifySnafu);
+                    // reinsert element (as it was if the value could not be extended)
                     self.put(DataElement::new(tag, header.vr, v));
-                    Ok(())
+                    result
                 }
 
                 Value::PixelSequence(..) => IncompatibleTypesSnafu {
@@ -1832,15 +1858,19 @@ where
     }
 
     fn apply_push_u16_impl(&mut self, tag: Tag, integer: u16) -> ApplyResult {
+        if let Some(kind) = self.non_primitive_value_type(tag) {
+            // fail before taking the element out, so that the object is left untouched
+            return IncompatibleTypesSnafu { kind }.fail();
+        }
         if let Some(e) = self.entries.remove(&tag) {
             let (header, value) = e.into_parts();
             match value {
                 Value::Primitive(mut v) => {
                     // extend value
-                    v.extend_u16([integer]).context(ModifySnafu)?;
-                    // reinsert element
+                    let result = v.extend_u16([integer]).context(ModifySnafu);
+                    // reinsert element (as it was if the value could not be extended)
                     self.put(DataElement::new(tag, header.vr, v));
-                    Ok(())
+                    result
                 }
 
                 Value::PixelSequence(..) => IncompatibleTypesSnafu {
@@ -1865,15 +1895,19 @@ where
     }
 
     fn apply_push_f32_impl(&mut self, tag: Tag, number: f32) -> ApplyResult {
+        if let Some(kind) = self.non_primitive_value_type(tag) {
+            // fail before taking the element out, so that the object is left untouched
+            return IncompatibleTypesSnafu { kind }.fail();
+        }
         if let Some(e) = self.entries.remove(&tag) {
             let (header, value) = e.into_parts();
             match value {
                 Value::Primitive(mut v) => {
                     // extend value
-                    v.extend_f32([number]).context(ModifySnafu)?;
-                    // reinsert element
+                    let result = v.extend_f32([number]).context(ModifySnafu);
+                    // reinsert element (as it was if the value could not be extended)
                     self.put(DataElement::new(tag, header.vr, v));
-                    Ok(())
+                    result
                 }
 
                 Value::PixelSequence(..) => IncompatibleTypesSnafu {
@@ -1898,15 +1932,19 @@ where
     }
 
     fn apply_push_f64_impl(&mut self, tag: Tag, number: f64) -> ApplyResult {
+        if let Some(kind) = self.non_primitive_value_type(tag) {
+            // fail before taking the element out, so that the object is left untouched
+            return IncompatibleTypesSnafu { kind }.fail();
+        }
         if let Some(e) = self.entries.remove(&tag) {
             let (header, value) = e.into_parts();
             match value {
                 Value::Primitive(mut v) => {
                     // extend value
-                    v.extend_f64([number]).context(ModifySnafu)?;
-                    // reinsert element
+                    let result = v.extend_f64([number]).context(ModifySnafu);
+                    // reinsert element (as it was if the value could not be extended)
                     self.put(DataElement::new(tag, header.vr, v));
-                    Ok(())
+                    result
                 }
 
                 Value::PixelSequence(..) => IncompatibleTypesSnafu {
